@@ -98,6 +98,35 @@ class Prop:
                 for op in ROUND_OPS:
                     add(tj, op, rel=True)
                     cases[-1]["tags"].update(data="graded", scale="%g" % scale)
+        # the same array in a badly scaled gauge: columns of a Tucker factor multiplied by powers of two, the matching
+        # core slices by the inverse powers (exact in binary floating point).  A component that is ~1e-16 in the core
+        # but O(1) in the array must survive every re-expression
+        for rep in range(12 if quick else 80):
+            N = rng.choice([1, 2, 3])
+            shape = [rng.choice([3, 4, 5]) for _ in range(N)]
+            pos = rng.choice([N - 1, N - 1, rng.randrange(N)])        # the last mode most often
+            kinds = [(rng.choice(["tt", "cp"]), n == pos or rng.random() < 0.3) for n in range(N)]
+            tries = 0
+            while True:
+                tries += 1
+                tj = rand_tensor_json(rng, shape, kinds, maxr=3, lo=-3, hi=3, maxs=3)
+                U = np.array(tj["modes"][pos]["U"], dtype=float)
+                S = U.shape[1]
+                if (S >= 2 and np.linalg.matrix_rank(U) == S and np.abs(dense_np(tj)).max() > 0) or tries > 200:
+                    break
+            if tries > 200:
+                continue
+            pw = [0] + [rng.choice([27, 40, 54]) * j for j in range(1, S)]
+            rng.shuffle(pw)
+            w = np.array([2.0 ** e for e in pw])
+            m = tj["modes"][pos]
+            m["U"] = (U * w[None, :]).tolist()
+            c = np.array(m["core"], dtype=float)
+            m["core"] = (c / w[None, :, None] if m["kind"] == "tt" else c / w[:, None]).tolist()
+            for op in ROUND_OPS + ["orthogonalize", "tt", "decompress_all", "transpose"]:
+                self._add_op(add, rng, tj, op)
+                cases[-1]["rel"] = True
+                cases[-1]["tags"].update(data="scaled-gauge", gauge_mode="last" if pos == N - 1 else "inner")
         return cases
 
     def _add_op(self, add, rng, tj, op, dd="float64"):
@@ -211,6 +240,8 @@ class Prop:
             if max(abs(v) for v in case["x"] + [0]) > 10 ** 6:
                 return None
             return "mkCase (ORoundtrip %s %s) %s" % (coq_natlist(case["shape"]), coq_list(case["x"]), tail)
+        if any(not float(v).is_integer() for m in case["t"]["modes"] for v in flat(m["core"]) + (flat(m["U"]) if m["U"] is not None else [])):
+            return None               # the exact comparison is over Z: scaled gauges / graded spectra are output-checked
         t = coq_tensor(case["t"])
         N = len(case["t"]["modes"])
         if op == "tt": return "mkCase (OTT %s) %s" % (t, tail)
